@@ -218,7 +218,7 @@ func c10backpressure(c *Check, rng *rand.Rand) {
 	must(err, "start env")
 	defer env.Close()
 	env.Cl.SetHandler(func(r *BReq) Action { return Action{Reply: StatusReply("OK")} })
-	for ep := 0; ep < c.Pick(5, 40); ep++ {
+	for ep := 0; ep < c.Pick(9, 40); ep++ {
 		if !env.P.Alive() {
 			c.Violate(Violation{Class: "proxy-died", Shape: "backpressure", Detail: env.P.PanicLine(), Witness: env.P.OutputTail(2000)})
 			return
@@ -265,7 +265,7 @@ func c10backpressure(c *Check, rng *rand.Rand) {
 				go func(ci int, cl *Client) {
 					defer wg.Done()
 					val := strings.Repeat("z", 60000)
-					for seq := 100; seq < 140; seq++ {
+					for seq := 100; seq < 200; seq++ {
 						slot := slots[0] + (ci*131+seq)%(slots[1]-slots[0]+1)
 						cl.Send(Req("SET", Key(slot, fmt.Sprintf("o%d.%d", base+ci, seq)), val))
 						sentN[ci]++
@@ -292,14 +292,14 @@ func c10backpressure(c *Check, rng *rand.Rand) {
 						n += len(bc.Requests())
 					}
 					if lost {
-						return n >= nclients*40
+						return n >= nclients*100
 					}
 					return n >= nclients*100
 				}
 				extra := 0
 				first := 100
 				if lost {
-					first = 140
+					first = 200
 				}
 				for seq := first; seq < 6000 && extra < 300; seq++ {
 					slot := slots[0] + (ci*131+seq)%(slots[1]-slots[0]+1)
